@@ -151,6 +151,7 @@ func idsOf(events []string, kind string) string {
 }
 
 func icptOp(c *Ctx, op string) {
+	c.Begin(op)
 	f := strings.Fields(op)
 	side, kind := f[1], f[2]
 	count, _ := strconv.Atoi(f[3])
